@@ -22,8 +22,16 @@ Definition c10_wf (text : string) (na : Z) (twopl : bool) : bool :=
 (* M_import: the implementation's reading of a file written from abstract file A (with any blanks/tabs between
    tokens) is the instance A denotes (Text/Render.v), whenever A is a well-formed abstract file *)
 From MP Require Import Text.Render.
-Definition c10_spec (na : Z) (twopl : bool) (A : file_ast) (impl : result instance) : bool :=
+(* ... including the per-project / per-lecturer / per-rank pair lists the solver builds its constraints from:
+   they must list exactly the denoted instance's pairs of that project / lecturer / rank, in student order *)
+Definition c10_spec (na : Z) (twopl : bool) (A : file_ast)
+           (impl : result (instance * (list (list (Z * Z)) * list (list (Z * Z)) * list (list (Z * Z))))) : bool :=
   if wf_ast na twopl A
-  then match impl with Ok J => instance_eqb (denote na twopl A) J | Crash _ => false end
+  then match impl with
+       | Ok (J, (pl, ll, rk)) =>
+           let M := denote na twopl A in
+           instance_eqb M J && ids_eqb (map ids (project_lists M)) pl &&
+           ids_eqb (map ids (lecturer_lists M)) ll && ids_eqb (map ids (rank_lists M)) rk
+       | Crash _ => false end
   else true.
 Definition c10_wf_ast (na : Z) (twopl : bool) (A : file_ast) : bool := wf_ast na twopl A.
